@@ -42,6 +42,18 @@ pub fn _mm_cmpeq_epi8(a: __m128i, b: __m128i) -> (r: __m128i)
     requires a.lanes().len() == 16, b.lanes().len() == 16
     ensures r.lanes().len() == 16, forall|i: int| 0 <= i < 16 ==> #[trigger] r.lanes()[i] == (if a.lanes()[i] == b.lanes()[i] { 0xFFu8 } else { 0u8 })
 { unimplemented!() }
+/// two's-complement reading of a lane (PCMPGTB compares signed bytes)
+pub open spec fn lane_signed(x: u8) -> int { if x >= 128 { x as int - 256 } else { x as int } }
+#[verifier::external_body]
+pub fn _mm256_cmpgt_epi8(a: __m256i, b: __m256i) -> (r: __m256i)
+    requires a.lanes().len() == 32, b.lanes().len() == 32
+    ensures r.lanes().len() == 32, forall|i: int| 0 <= i < 32 ==> #[trigger] r.lanes()[i] == (if lane_signed(a.lanes()[i]) > lane_signed(b.lanes()[i]) { 0xFFu8 } else { 0u8 })
+{ unimplemented!() }
+#[verifier::external_body]
+pub fn _mm_cmpgt_epi8(a: __m128i, b: __m128i) -> (r: __m128i)
+    requires a.lanes().len() == 16, b.lanes().len() == 16
+    ensures r.lanes().len() == 16, forall|i: int| 0 <= i < 16 ==> #[trigger] r.lanes()[i] == (if lane_signed(a.lanes()[i]) > lane_signed(b.lanes()[i]) { 0xFFu8 } else { 0u8 })
+{ unimplemented!() }
 #[verifier::external_body]
 pub fn raw_or256(a: __m256i, b: __m256i) -> (r: __m256i)
     requires a.lanes().len() == 32, b.lanes().len() == 32
